@@ -133,6 +133,15 @@ C_Distinct(ev) ==
      /\ SigDiff(T[ev.bprev], ev, SpecOutcome(T[ev.bprev]), SpecOutcome(ev)))
   => LET m == SpecOutcome(ev).m IN
      S!DigestTail(m, T[ev.bprev].out, T[ev.bprev].pl, Len(T[ev.bprev].s)) # S!DigestTail(m, ev.out, ev.pl, Len(ev.s))
+\* C03, second clause: a changed salt/cost field that the specification says must be REFUSED, accepted by the
+\* code and hashed to the base's digest (a cost parsed into a narrower type, a salt character aliased by the
+\* decoder): two different settings, one hash part.
+C_FalseAccept(ev) ==
+  (ev.bprev > 0 /\ ev.bprev < l /\ IsHashEv(T[ev.bprev].e) /\ ObservedSuccess(T[ev.bprev]) /\ ObservedSuccess(ev)
+     /\ SpecOutcome(T[ev.bprev]).k = "ok" /\ SpecOutcome(ev).k = "fail" /\ SpecOutcome(ev).m = SpecOutcome(T[ev.bprev]).m
+     /\ ev.s # T[ev.bprev].s /\ ev.pc = T[ev.bprev].pc)
+  => LET m == SpecOutcome(T[ev.bprev]).m IN
+     S!DigestTail(m, T[ev.bprev].out, T[ev.bprev].pl, Len(T[ev.bprev].s)) # S!DigestTail(m, ev.out, ev.pl, Len(ev.s))
 \* the converse (documented insignificance) is not a property here: counted as a divergence only
 C_SameKeySame(ev) ==
   (ev.bprev > 0 /\ ev.bprev < l /\ IsHashEv(T[ev.bprev].e) /\ ObservedSuccess(T[ev.bprev]) /\ ObservedSuccess(ev)
@@ -177,7 +186,9 @@ JudgeHash(ev) ==
       pre  == StOf(ev.o)
       post == [out |-> AbsOut(ev.out, ev.outk), scr |-> AbsScr(ev, pre)]
       ret  == IF ev.ret = "null" THEN RNull ELSE IF ev.ret = "out" THEN ROut ELSE ev.ret
-      c    == Call(fn, oc, SzClass(ev.size), pre, post, 0, ev.errno, ret,
+      \* errno on entry (recorded as "ein") is part of the history: no predicate may depend on it, and
+      \* every failing call must replace it by a documented code (P_FailClosed reads err1 only)
+      c    == Call(fn, oc, SzClass(ev.size), pre, post, IF "ein" \in DOMAIN ev THEN ev.ein ELSE 0, ev.errno, ret,
                    Grew(ev), IF Grew(ev) THEN ErasedFirst(ev) ELSE TRUE, ReallocFailed(ev), FailureTokens)
       core == Judge(c)
       \* under an injected fault a failing call is judged as C15; the shape of the failure is the same
@@ -192,6 +203,7 @@ JudgeHash(ev) ==
               \cup (IF C_Terminated(ev) THEN {} ELSE {V("C06", "Terminated")})
               \cup (IF C_RoundTrip(ev) THEN {} ELSE {V("C01", "RoundTrip")})
               \cup (IF C_Distinct(ev) THEN {} ELSE {V("C03", "Distinct")})
+              \cup (IF C_FalseAccept(ev) THEN {} ELSE {V("C03", "FalseAccept")})
               \cup (IF C_Handle(ev) THEN {} ELSE {V("C14", "Handle")})
               \cup (IF C_Literal(ev) THEN {} ELSE {V("C10", "Literal")})
               \cup (IF C18_CanHash(ev) THEN {} ELSE {V("C18", "CanHash")})
